@@ -611,3 +611,25 @@ Section SeqTotal.
     split; [reflexivity|]. eapply SeqHyp_ext; eauto.
   Qed.
 End SeqTotal.
+
+(* the boolean tests used by the correspondence imply the hypotheses of the totality theorem *)
+Lemma seq_hypb_sound J : seq_hypb J = true -> seq_ok J /\ (3 <= iL J)%nat /\ SeqHyp (ig J).
+Proof.
+  unfold seq_hypb. rewrite !andb_true_iff. intros ((H1 & H2) & H3).
+  split.
+  { unfold seq_okb in H1. rewrite !andb_true_iff in H1. destruct H1 as ((A & B) & C).
+    split; [|split].
+    - clear - A. induction (map fst (arcs (ig J))) as [|k l IH]; simpl in *; [constructor|].
+      apply andb_true_iff in A. destruct A as [A1 A2]. constructor; [|auto].
+      intros Hin. apply negb_true_iff in A1.
+      assert (E : existsb (natpair_eqb k) l = true).
+      { apply existsb_exists. exists k. split; [exact Hin|apply natpair_eqb_refl]. }
+      congruence.
+    - apply check_arc_iff. exact B.
+    - apply Nat.leb_le. exact C. }
+  split; [apply Nat.leb_le; exact H2|].
+  destruct (nodes (ig J)) as [|d rest] eqn:En; [discriminate|].
+  apply andb_true_iff in H3. destruct H3 as [A B].
+  exists d, rest. split; [exact En|]. split; [destruct (nhi d); [discriminate|reflexivity]|].
+  intros nd Hnd. rewrite forallb_forall in B. apply ext_leb_le. apply B. exact Hnd.
+Qed.
